@@ -1,0 +1,462 @@
+//go:build verif
+
+package scheduler
+
+import (
+	"sort"
+	"sync"
+
+	scheduler_invocation "github.com/buildbarn/bb-remote-execution/pkg/scheduler/invocation"
+
+	"google.golang.org/grpc/codes"
+	"google.golang.org/grpc/status"
+)
+
+// VerifTracer is installed by external verification tooling to observe
+// (and gate) the critical sections of an InMemoryBuildQueue.
+type VerifTracer interface {
+	// Enter is called before the lock is acquired.
+	Enter(bq *InMemoryBuildQueue)
+	// Leave is called with the lock held, right before it is
+	// released. VerifSnapshot() may be called from it.
+	Leave(bq *InMemoryBuildQueue)
+}
+
+var verifTracers sync.Map // *InMemoryBuildQueue -> *verifState
+
+type verifState struct {
+	tracer   VerifTracer
+	taskIDs  map[*task]int
+	nextTask int
+}
+
+// VerifSetTracer installs a tracer for a build queue.
+func VerifSetTracer(bq *InMemoryBuildQueue, t VerifTracer) {
+	verifTracers.Store(bq, &verifState{tracer: t, taskIDs: map[*task]int{}})
+}
+
+func (bq *InMemoryBuildQueue) verifEnter() {
+	if s, ok := verifTracers.Load(bq); ok {
+		s.(*verifState).tracer.Enter(bq)
+	}
+}
+
+func (bq *InMemoryBuildQueue) verifLeave() {
+	if s, ok := verifTracers.Load(bq); ok {
+		s.(*verifState).tracer.Leave(bq)
+	}
+}
+
+// VerifLockIsFree probes whether the lock of the build queue is free.
+func (bq *InMemoryBuildQueue) VerifLockIsFree() bool {
+	if bq.lock.TryLock() {
+		bq.lock.Unlock()
+		return true
+	}
+	return false
+}
+
+// VerifInvocation is the raw state of one invocation object.
+type VerifInvocation struct {
+	Path                    []string       `json:"path"`
+	QueuedOperations        []string       `json:"queued_ops"`      // heap array order
+	QueueIndices            []int          `json:"queue_indices"`   // operation.queueIndex per entry
+	QueuedChildren          [][]string     `json:"queued_children"` // heap array order (paths)
+	QueuedChildrenIndices   []int          `json:"queued_children_indices"`
+	QueuedChildrenIndex     int            `json:"queued_children_index"`
+	IdleSyncWorkers         []string       `json:"idle_sync_workers"` // list order
+	IdleSyncWorkerIndices   []int          `json:"idle_sync_worker_indices"`
+	IdleSyncChildren        [][]string     `json:"idle_sync_children"`
+	IdleSyncChildrenIndex   int            `json:"idle_sync_children_index"`
+	FirstQueuedPriority     int            `json:"first_prio"`
+	ExecutingWorkers        map[string]int `json:"executing"`
+	IdleWorkersCount        int            `json:"idle_count"`
+	LastOperationStarted    int64          `json:"last_started"`
+	LastOperationCompletion int64          `json:"last_completion"`
+	Children                []string       `json:"children"` // keys, sorted
+	ParentOK                bool           `json:"parent_ok"`
+}
+
+// VerifWorker is the raw state of one worker.
+type VerifWorker struct {
+	Key         string   `json:"key"`
+	Task        int      `json:"task"` // 0 = none
+	Terminating bool     `json:"terminating"`
+	HasLastInv  bool     `json:"has_last_inv"`
+	LastInv     []string `json:"last_inv"`
+	Parked      bool     `json:"parked"` // wakeup != nil
+	ListIndex   int      `json:"list_index"`
+	CleanupAt   int64    `json:"cleanup_at"` // -1 = no cleanup scheduled
+	Stickiness  []int64  `json:"stickiness"`
+	Drained     bool     `json:"drained"`
+}
+
+// VerifQueue is the raw state of one size class queue.
+type VerifQueue struct {
+	InstanceNamePrefix  string            `json:"prefix"`
+	Platform            string            `json:"platform"`
+	SizeClass           int               `json:"size_class"`
+	MayBeRemoved        bool              `json:"may_be_removed"`
+	CleanupAt           int64             `json:"cleanup_at"`
+	Drains              []string          `json:"drains"`
+	Workers             []VerifWorker     `json:"workers"`
+	Invocations         []VerifInvocation `json:"invocations"` // preorder, root first
+	SizeClassIndex      int               `json:"size_class_index"`
+	PlatformSizeClasses []int             `json:"platform_size_classes"`
+	StickinessLimits    []int64           `json:"stickiness_limits"`
+	MaxBackground       int               `json:"max_background"`
+}
+
+// VerifOperation is the raw state of one operation.
+type VerifOperation struct {
+	Name                   string   `json:"name"`
+	Task                   int      `json:"task"`
+	Priority               int      `json:"prio"`
+	Queue                  int      `json:"queue"` // index into Queues of the invocation's queue
+	Invocation             []string `json:"inv"`
+	QueueIndex             int      `json:"queue_index"`
+	Waiters                int      `json:"waiters"`
+	MayExistWithoutWaiters bool     `json:"may_exist"`
+	CleanupAt              int64    `json:"cleanup_at"`
+	InTaskMap              bool     `json:"in_task_map"` // task.operations[o.invocation] == o
+}
+
+// VerifTask is the raw state of one task.
+type VerifTask struct {
+	ID                int      `json:"id"`
+	Digest            string   `json:"digest"`
+	DoNotCache        bool     `json:"dnc"`
+	Stage             string   `json:"stage"` // Q, E, C
+	Worker            string   `json:"worker"`
+	WorkerQueue       int      `json:"worker_queue"`
+	RetryCount        int      `json:"retry"`
+	Operations        []string `json:"ops"`
+	HasLearner        bool     `json:"learner"`
+	Response          string   `json:"resp"` // ExecuteResponse.Message
+	ResponseCode      int      `json:"code"`
+	ResponseExitCode  int      `json:"exit_code"`
+	ResponseHasResult bool     `json:"has_result"`
+	ExpectedDuration  int64    `json:"exp_dur"`
+	QueuedAt          int64    `json:"queued_at"`
+	Timeout           int64    `json:"timeout"`
+	Suffix            string   `json:"suffix"`
+	HasWakeup         bool     `json:"has_wakeup"`
+	InDedup           bool     `json:"in_dedup"`
+}
+
+// VerifSnapshot is the raw state of the build queue. It is exported
+// as is; all interpretation happens outside.
+type VerifSnapshot struct {
+	Now            int64            `json:"now"`
+	Queues         []VerifQueue     `json:"queues"`
+	Operations     []VerifOperation `json:"ops"`
+	Tasks          []VerifTask      `json:"tasks"`
+	Dedup          map[string]int   `json:"dedup"`
+	CleanupHeap    []int64          `json:"cleanup_heap"`
+	CleanupSorted  bool             `json:"cleanup_heap_ok"`
+	PlatformQueues int              `json:"platform_queues"`
+	HardFailureAt  int64            `json:"hard_failure_at"`
+}
+
+func invocationKeyOf(k string) scheduler_invocation.Key { return scheduler_invocation.Key(k) }
+
+func verifPath(i *invocation) []string {
+	p := make([]string, 0, len(i.invocationKeys))
+	for _, k := range i.invocationKeys {
+		p = append(p, string(k))
+	}
+	return p
+}
+
+// VerifSnapshot exports the state of the build queue. The lock must be
+// held (i.e. it may only be called from VerifTracer.Leave()). The
+// time unit divides all timestamps (which are relative to the Unix
+// epoch).
+func (bq *InMemoryBuildQueue) VerifSnapshot(unit int64) *VerifSnapshot {
+	sv, _ := verifTracers.Load(bq)
+	vs := sv.(*verifState)
+	ts := func(k cleanupKey) int64 {
+		if !k.isActive() {
+			return -1
+		}
+		return bq.cleanupQueue.heap[k-1].timestamp.UnixNano() / unit
+	}
+	snap := &VerifSnapshot{
+		Now:            bq.now.UnixNano() / unit,
+		Dedup:          map[string]int{},
+		CleanupSorted:  true,
+		PlatformQueues: len(bq.platformQueues),
+		HardFailureAt:  bq.platformQueueAbsenceHardFailureTime.UnixNano() / unit,
+	}
+	for idx, e := range bq.cleanupQueue.heap {
+		snap.CleanupHeap = append(snap.CleanupHeap, e.timestamp.UnixNano()/unit)
+		if *e.key != cleanupKey(idx+1) {
+			snap.CleanupSorted = false
+		}
+		if idx > 0 && bq.cleanupQueue.heap[idx].timestamp.Before(bq.cleanupQueue.heap[(idx-1)/2].timestamp) {
+			snap.CleanupSorted = false
+		}
+	}
+
+	// Queues in a deterministic order.
+	type scqEntry struct {
+		scq  *sizeClassQueue
+		name string
+	}
+	var scqs []scqEntry
+	for k, scq := range bq.sizeClassQueues {
+		scqs = append(scqs, scqEntry{scq, k.platformKey.GetInstanceNamePrefix().String() + "|" + k.platformKey.GetPlatformString() + "|" + string(rune('0'+k.sizeClass))})
+	}
+	sort.Slice(scqs, func(a, b int) bool { return scqs[a].name < scqs[b].name })
+	queueIndex := map[*sizeClassQueue]int{}
+	for idx, e := range scqs {
+		queueIndex[e.scq] = idx
+	}
+
+	// Collect tasks reachable from operations, workers and the
+	// deduplication map; assign stable identifiers on first sight.
+	var opNames []string
+	for name := range bq.operationsNameMap {
+		opNames = append(opNames, name)
+	}
+	sort.Strings(opNames)
+	var tasks []*task
+	seen := map[*task]bool{}
+	addTask := func(t *task) {
+		if t == nil || seen[t] {
+			return
+		}
+		seen[t] = true
+		if _, ok := vs.taskIDs[t]; !ok {
+			vs.nextTask++
+			vs.taskIDs[t] = vs.nextTask
+		}
+		tasks = append(tasks, t)
+	}
+	for _, name := range opNames {
+		addTask(bq.operationsNameMap[name].task)
+	}
+	for _, e := range scqs {
+		var wkeys []string
+		for k := range e.scq.workers {
+			wkeys = append(wkeys, string(k))
+		}
+		sort.Strings(wkeys)
+		for _, k := range wkeys {
+			addTask(e.scq.workers[workerKey(k)].currentTask)
+		}
+	}
+	var dkeys []string
+	dedupByString := map[string]*task{}
+	for d, t := range bq.inFlightDeduplicationMap {
+		dkeys = append(dkeys, d.String())
+		dedupByString[d.String()] = t
+	}
+	sort.Strings(dkeys)
+	for _, d := range dkeys {
+		addTask(dedupByString[d])
+		snap.Dedup[d] = vs.taskIDs[dedupByString[d]]
+	}
+	// Tasks only reachable through invocation heaps (should not exist).
+	var walkTasks func(i *invocation)
+	walkTasks = func(i *invocation) {
+		for _, o := range i.queuedOperations {
+			addTask(o.task)
+		}
+		var ckeys []string
+		for k := range i.children {
+			ckeys = append(ckeys, string(k))
+		}
+		sort.Strings(ckeys)
+		for _, k := range ckeys {
+			walkTasks(i.children[invocationKeyOf(k)])
+		}
+	}
+	for _, e := range scqs {
+		walkTasks(&e.scq.rootInvocation)
+	}
+
+	workerName := func(w *worker) string { return string(w.workerKey) }
+
+	for _, e := range scqs {
+		scq := e.scq
+		pq := scq.platformQueue
+		q := VerifQueue{
+			InstanceNamePrefix: pq.platformKey.GetInstanceNamePrefix().String(),
+			Platform:           pq.platformKey.GetPlatformString(),
+			SizeClass:          int(scq.sizeClass),
+			MayBeRemoved:       scq.mayBeRemoved,
+			CleanupAt:          ts(scq.cleanupKey),
+			MaxBackground:      pq.maximumQueuedBackgroundLearningOperations,
+			SizeClassIndex:     -1,
+		}
+		for idx, sc := range pq.sizeClasses {
+			q.PlatformSizeClasses = append(q.PlatformSizeClasses, int(sc))
+			if pq.sizeClassQueues[idx] == scq {
+				q.SizeClassIndex = idx
+			}
+		}
+		for _, l := range pq.workerInvocationStickinessLimits {
+			q.StickinessLimits = append(q.StickinessLimits, int64(l)/unit)
+		}
+		for k := range scq.drains {
+			q.Drains = append(q.Drains, k)
+		}
+		sort.Strings(q.Drains)
+		var wkeys []string
+		for k := range scq.workers {
+			wkeys = append(wkeys, string(k))
+		}
+		sort.Strings(wkeys)
+		for _, k := range wkeys {
+			w := scq.workers[workerKey(k)]
+			vw := VerifWorker{
+				Key:         k,
+				Terminating: w.terminating,
+				Parked:      w.wakeup != nil,
+				ListIndex:   w.listIndex,
+				CleanupAt:   ts(w.cleanupKey),
+				Drained:     w.isDrained(scq, workerKey(k).getWorkerID()),
+			}
+			if w.currentTask != nil {
+				vw.Task = vs.taskIDs[w.currentTask]
+			}
+			if w.lastInvocation != nil {
+				vw.HasLastInv = true
+				vw.LastInv = verifPath(w.lastInvocation)
+			}
+			for _, s := range w.stickinessStartingTimes {
+				if s.IsZero() {
+					vw.Stickiness = append(vw.Stickiness, 0)
+				} else {
+					vw.Stickiness = append(vw.Stickiness, s.UnixNano()/unit)
+				}
+			}
+			q.Workers = append(q.Workers, vw)
+		}
+		var walk func(i *invocation)
+		walk = func(i *invocation) {
+			vi := VerifInvocation{
+				Path:                    verifPath(i),
+				QueuedChildrenIndex:     i.queuedChildrenIndex,
+				IdleSyncChildrenIndex:   i.idleSynchronizingWorkersChildrenIndex,
+				FirstQueuedPriority:     int(i.firstQueuedOperationPriority),
+				ExecutingWorkers:        map[string]int{},
+				IdleWorkersCount:        int(i.idleWorkersCount),
+				LastOperationStarted:    i.lastOperationStarted.UnixNano() / unit,
+				LastOperationCompletion: i.lastOperationCompletion.UnixNano() / unit,
+				ParentOK:                true,
+			}
+			if i.parent == nil {
+				vi.LastOperationStarted = 0
+				vi.LastOperationCompletion = 0
+				vi.QueuedChildrenIndex = -1
+				vi.IdleSyncChildrenIndex = -1
+			} else {
+				depth := len(i.invocationKeys)
+				vi.ParentOK = i.parent.children[i.invocationKeys[depth-1]] == i && i.sizeClassQueue == scq
+			}
+			for _, o := range i.queuedOperations {
+				vi.QueuedOperations = append(vi.QueuedOperations, o.name)
+				vi.QueueIndices = append(vi.QueueIndices, o.queueIndex)
+			}
+			for _, c := range i.queuedChildren {
+				vi.QueuedChildren = append(vi.QueuedChildren, verifPath(c))
+				vi.QueuedChildrenIndices = append(vi.QueuedChildrenIndices, c.queuedChildrenIndex)
+			}
+			for _, e := range i.idleSynchronizingWorkers {
+				vi.IdleSyncWorkers = append(vi.IdleSyncWorkers, workerName(e.worker))
+				vi.IdleSyncWorkerIndices = append(vi.IdleSyncWorkerIndices, e.worker.listIndex)
+			}
+			for _, c := range i.idleSynchronizingWorkersChildren {
+				vi.IdleSyncChildren = append(vi.IdleSyncChildren, verifPath(c))
+			}
+			for w, n := range i.executingWorkers {
+				vi.ExecutingWorkers[workerName(w)] += n
+			}
+			var ckeys []string
+			for k := range i.children {
+				ckeys = append(ckeys, string(k))
+			}
+			sort.Strings(ckeys)
+			vi.Children = ckeys
+			q.Invocations = append(q.Invocations, vi)
+			for _, k := range ckeys {
+				walk(i.children[invocationKeyOf(k)])
+			}
+		}
+		walk(&scq.rootInvocation)
+		snap.Queues = append(snap.Queues, q)
+	}
+
+	for _, name := range opNames {
+		o := bq.operationsNameMap[name]
+		vo := VerifOperation{
+			Name:                   o.name,
+			Task:                   vs.taskIDs[o.task],
+			Priority:               int(o.priority),
+			Queue:                  -1,
+			Invocation:             verifPath(o.invocation),
+			QueueIndex:             o.queueIndex,
+			Waiters:                int(o.waiters),
+			MayExistWithoutWaiters: o.mayExistWithoutWaiters,
+			CleanupAt:              ts(o.cleanupKey),
+			InTaskMap:              o.task.operations[o.invocation] == o,
+		}
+		if idx, ok := queueIndex[o.invocation.sizeClassQueue]; ok {
+			vo.Queue = idx
+		}
+		snap.Operations = append(snap.Operations, vo)
+	}
+
+	sort.Slice(tasks, func(a, b int) bool { return vs.taskIDs[tasks[a]] < vs.taskIDs[tasks[b]] })
+	for _, t := range tasks {
+		vt := VerifTask{
+			ID:               vs.taskIDs[t],
+			Digest:           t.actionDigest.String(),
+			RetryCount:       t.retryCount,
+			HasLearner:       t.initialSizeClassLearner != nil,
+			ExpectedDuration: int64(t.expectedDuration) / unit,
+			QueuedAt:         t.desiredState.QueuedTimestamp.AsTime().UnixNano() / unit,
+			Suffix:           t.desiredState.InstanceNameSuffix,
+			HasWakeup:        t.stageChangeWakeup != nil,
+			WorkerQueue:      -1,
+		}
+		if a := t.desiredState.Action; a != nil {
+			vt.DoNotCache = a.DoNotCache
+			vt.Timeout = int64(a.Timeout.AsDuration()) / unit
+		}
+		switch {
+		case t.executeResponse != nil:
+			vt.Stage = "C"
+			vt.Response = t.executeResponse.Message
+			vt.ResponseCode = int(status.FromProto(t.executeResponse.Status).Code())
+			if t.executeResponse.Status == nil {
+				vt.ResponseCode = int(codes.OK)
+			}
+			vt.ResponseHasResult = t.executeResponse.Result != nil
+			vt.ResponseExitCode = int(t.executeResponse.Result.GetExitCode())
+		case t.currentWorker != nil:
+			vt.Stage = "E"
+		default:
+			vt.Stage = "Q"
+		}
+		if w := t.currentWorker; w != nil {
+			vt.Worker = workerName(w)
+			for _, e := range scqs {
+				if e.scq.workers[w.workerKey] == w {
+					vt.WorkerQueue = queueIndex[e.scq]
+				}
+			}
+		}
+		for _, o := range t.operations {
+			vt.Operations = append(vt.Operations, o.name)
+		}
+		sort.Strings(vt.Operations)
+		if dt, ok := bq.inFlightDeduplicationMap[t.actionDigest]; ok && dt == t {
+			vt.InDedup = true
+		}
+		snap.Tasks = append(snap.Tasks, vt)
+	}
+	return snap
+}
